@@ -539,7 +539,14 @@ static void gen_int(vh_rng_t * r, vh_buf_t * b) {
         case 3: case 4: vh_buf_printf(b, "%u", 10 + vh_below(r, 9990)); break;
         case 5: case 6: vh_buf_printf(b, "-%u", 1 + vh_below(r, 99999)); break;
         case 7: vh_buf_adds(b, edge[vh_below(r, sizeof edge / sizeof edge[0])]); break;
-        case 8: vh_buf_printf(b, "%s%u", vh_chance(r, 1, 2) ? "+" : "00", vh_below(r, 1000)); break;
+        case 8:
+            if (vh_chance(r, 1, 2)) vh_buf_printf(b, "%s%u", vh_chance(r, 1, 2) ? "+" : "00", vh_below(r, 1000));
+            else { /* padding zeros are legal and unlimited: tokens longer than any "longest int32 spelling" */
+                int z = 3 + (int) vh_below(r, 24); if (vh_chance(r, 1, 3)) vh_buf_addc(b, vh_chance(r, 1, 2) ? '-' : '+');
+                while (z--) vh_buf_addc(b, '0');
+                vh_buf_printf(b, "%u", vh_chance(r, 1, 4) ? 2147483647u : vh_below(r, 100000));
+            }
+            break;
         default: vh_buf_printf(b, "%u", vh_below(r, 1000000000u)); break;
     }
 }
